@@ -1,10 +1,12 @@
-INIT ObsInit
+INIT ObsInitDup
 NEXT Next
 CONSTANTS Configs = {}
   CountBasedCheck = FALSE
   SkipEpochWithoutRow = FALSE
   LoadEveryEngine = FALSE
   LoadOnlyOwnTargets = FALSE
+  MatchWholeSecond = FALSE
+  DedupIgnoresSensor = FALSE
   CrashOnDuplicate = TRUE
   KeepDuplicates = FALSE
   CreateMissingTables = FALSE
